@@ -15,6 +15,7 @@ pub type RawMode = u32;
 pub struct OpenHowStub;
 pub mod syscalls {
     use super::*;
+//@broadcast-here
 //@item src/syscalls.rs :: struct OpenHow | sub.OpenHow
 //@item src/syscalls.rs :: enum Error | sub.strip
 //@item src/syscalls.rs :: trait HotfixRustixFd
